@@ -8,11 +8,18 @@ import BfeVerif.C24.Proofs
   FULL STATEMENT (`C24_full`): every request the code accepts is accepted by the RFC parser.  It is FALSE for the
   unchanged code: each `C24_witness_*` theorem below is a concrete byte stream that the model of the code accepts
   and the RFC parser rejects, one per smuggling class; all of them are replayed on the real ReadRequest
-  (corpus/C24/known.ops) and listed as known findings.  What IS proved for all inputs: line-level agreement
-  (`C24_line_agree`), strictness of the Content-Length number syntax and rejection of conflicting duplicates
-  (the two repaired defects).  The agreement of the two parsers on the clean sub-language as a whole
-  (same boundaries / names / body) is NOT proved; it is checked per case by the differential run, where the
-  verdict of every generated stream is computed by `rfcRequest`.
+  (corpus/C24/known.ops) and listed as known findings.
+
+  PARTIAL STATEMENT, proved for all inputs: on the decidable clean sub-language `cleanRequest` (Model.lean: request
+  line and header block are syntactically RFC lines/fields — CRLF, no bare CR/LF, no obs-fold, token names directly
+  before the colon, no CTLs —, token method, HTTP/1.1, at most one Transfer-Encoding / Content-Length field with plain
+  ASCII values, no `identity` coding, non-empty Content-Length, chunk-size lines `1*HEXDIG CRLF`, RFC-syntactic
+  trailer) the two whole parsers agree: `C24_same_boundaries_partial` (same method, target, field names, body, rest)
+  and `C24_rejects_partial` (RFC-reject => bfe rejects).  The clean class fixes only the *syntax* of lines and
+  fields; the framing decision (values like `abc`, `+5`, `gzip`, overflow), the target, chunk data and sizes are
+  not assumed and are covered by the theorem.  The layers are also stated separately: lines (`C24_line_agree`),
+  header block (`C24_header_block_agree`), framing decision (`C24_framing_agree_partial`), chunked body
+  (`C24_chunked_body_strict`).
 -/
 namespace BfeVerif.C24
 open BfeVerif.C23 (Bytes)
@@ -64,21 +71,8 @@ def wGood : Bytes :=
 
 /-- **lines**: whenever the strict line splitter (CRLF only, no bare CR/LF) accepts, bfe's `ReadLine` returns the
     same line and the same rest — on RFC-conforming input both parsers cut lines at the same places. -/
-theorem C24_line_agree (s l r : Bytes) (h : rfcLine s = .ok (l, r)) : readLine s = some (l, r) := by
-  obtain ⟨hs, hall⟩ := rfcLine_shape s l r h
-  have hsp : C23.splitLF s = some (l ++ [13], r) := by
-    have : s = (l ++ [13]) ++ 10 :: r := by rw [hs]; simp
-    rw [this]
-    apply splitLF_append'
-    intro b hb
-    rcases List.mem_append.mp hb with hb | hb
-    · exact (hall b hb).1
-    · have : b = 13 := by simpa using hb
-      subst this; decide
-  unfold readLine
-  cases s with
-  | nil => simp at hs
-  | cons a t => simp only [hsp, dropLastCR_append]
+theorem C24_line_agree (s l r : Bytes) (h : rfcLine s = .ok (l, r)) : readLine s = some (l, r) :=
+  readLine_of_rfcLine s l r h
 
 /-- **Content-Length syntax** (repaired): the number parser accepts exactly non-empty digit strings below 2^63 —
     no sign, no blanks, no other bytes. -/
@@ -132,6 +126,71 @@ theorem C24_conflicting_cl_rejected (fs : List Field) (a : Bytes) (rest : List B
       · right; rfl
       · left; rfl
     | false => left; simp [h1]
+
+/-! ### the two parsers agree on the clean sub-language (all inputs) -/
+
+/-- **same boundaries** (partial: clean sub-language).  If the stream is clean and the model of bfe's ReadRequest
+    accepts the header (`readRequestHead`) and reads the body to a clean end (`readBody`), then the RFC parser
+    accepts the same stream with the same method, target, field names (case-insensitively), body and unread rest. -/
+theorem C24_same_boundaries_partial (s : Bytes) (hc : cleanRequest s = true) (q : Req) (r : Bytes)
+    (hh : readRequestHead s = some (q, r)) (body rest : Bytes)
+    (hb : readBody q.framing r = (body, some rest)) :
+    rfcRequest s = .ok (⟨q.method, q.target, q.keys.map asciiLower, body⟩, rest) :=
+  same_boundaries s hc q r hh body rest hb
+
+/-- **rejects** (partial: clean sub-language).  A clean stream that the RFC parser rejects (bad Content-Length
+    syntax or size, unsupported transfer coding, malformed or truncated body / chunk / trailer, bad target …) is
+    never accepted by bfe: either the header is rejected or the body read ends in an error. -/
+theorem C24_rejects_partial (s : Bytes) (hc : cleanRequest s = true) (e : String)
+    (hr : rfcRequest s = .error e) :
+    ¬ ∃ q r body rest, readRequestHead s = some (q, r) ∧ readBody q.framing r = (body, some rest) := by
+  rintro ⟨q, r, body, rest, hh, hb⟩
+  rw [same_boundaries s hc q r hh body rest hb] at hr
+  cases hr
+
+/-- **header block layer**: whatever the strict RFC field reader accepts (any number of fields, then the empty
+    line), bfe's ReadMIMEHeaderAndKeys reads as the same fields (names canonicalised instead of lower-cased, same
+    trimmed values) and stops at the same place. -/
+theorem C24_header_block_agree (f : Nat) (first : Bool) (s : Bytes) (fs : List Field) (r' : Bytes)
+    (h : rfcFields f first s = .ok (fs, r')) :
+    ∃ raw : List (Bytes × Bytes), fs = raw.map lowerF ∧
+      (∀ p ∈ raw, p.1.length ≠ 0 ∧ p.1.all C23.isTchar = true ∧ trim p.2 = p.2) ∧
+      ∀ f2, s.length < f2 → readHeader f2 s = some (raw.map canonF, r') :=
+  fields_agree f first s fs r' h
+
+/-- **framing decision layer**: for the same fields (token names; at most one TE / CL, plain values, no identity,
+    non-empty CL), whenever bfe's fixTransferEncoding / fixLength / fixTrailer decide a framing, RFC 7230 §3.3.3
+    decides the same one. -/
+theorem C24_framing_agree_partial (raw : List (Bytes × Bytes))
+    (hraw : ∀ p ∈ raw, p.1.length ≠ 0 ∧ p.1.all C23.isTchar = true ∧ trim p.2 = p.2)
+    (hclean : cleanFields (raw.map lowerF) = true) (fr : Framing)
+    (h : framing (raw.map canonF) = some fr) : rfcFraming 1 (raw.map lowerF) = .ok fr :=
+  framing_agree raw hraw hclean fr h
+
+/-- **chunked body layer**: if every chunk-size line is `1*HEXDIG CRLF` (`strictChunks`), a clean end of bfe's
+    chunked reader is a success of the STRICT RFC 7230 §4.1 decoder with the same body and rest. -/
+theorem C24_chunked_body_strict (s r2 : Bytes) (h : (C23.decode s).err = .eof)
+    (hst : strictChunks (s.length + 1) s = some r2) :
+    C23.rfcDechunk false s = .ok (C23.decode s).body (C23.decode s).rest ∧ r2 = (C23.decode s).rest :=
+  chunked_strict (s.length + 1) s h _ r2 hst (s.length + 1) (by omega)
+
+/-! non-vacuity of the clean class: clean + accepted (Content-Length and chunked with trailer), clean + rejected by
+    both, and a stream that is not clean -/
+-- 'POST /a HTTP/1.1\r\nHost: x\r\nTransfer-Encoding: Chunked\r\n\r\n5\r\nhello\r\n0\r\nX-T: 1\r\n\r\nGET'
+def wCleanChunked : Bytes :=
+  [80,79,83,84,32,47,97,32,72,84,84,80,47,49,46,49,13,10,72,111,115,116,58,32,120,13,10,84,114,97,110,115,102,101,114,45,69,110,99,111,100,105,110,103,58,32,67,104,117,110,107,101,100,13,10,13,10,53,13,10,104,101,108,108,111,13,10,48,13,10,88,45,84,58,32,49,13,10,13,10,71,69,84]
+-- 'POST /a HTTP/1.1\r\nContent-Length: abc\r\n\r\n'
+def wCleanBad : Bytes :=
+  [80,79,83,84,32,47,97,32,72,84,84,80,47,49,46,49,13,10,67,111,110,116,101,110,116,45,76,101,110,103,116,104,58,32,97,98,99,13,10,13,10]
+example : cleanRequest wGood = true := by decide
+example : cleanRequest wCleanChunked = true := by decide
+example : (match readRequestHead wCleanChunked with
+    | some (q, r) => (q.framing, (readBody q.framing r).1.length, ((readBody q.framing r).2.map List.length))
+    | none => (.length 0, 0, none)) = (.chunked, 5, some 3) := by decide
+example : cleanRequest wCleanBad = true ∧ codeAccepts wCleanBad = false ∧
+    rfcRejectsWith wCleanBad "cl-syntax" = true := by
+  refine ⟨?_, ?_, ?_⟩ <;> decide
+example : cleanRequest wWsColon = false := by decide
 
 /-! ### the full statement fails: one witness per smuggling class (model of the code accepts, RFC parser rejects) -/
 
